@@ -194,7 +194,7 @@ Definition cached_dataclass_copying (name : string) (src : N) (fields : list str
   mkop name src true false (map (fun f => (f, false)) fields).
 
 Theorem shared_attribute_refuted : forall name src f rest (k : N),
-  exists hist, List.length hist = 3 /\
+  exists hist, List.length hist = 3%nat /\
     ~ Forall (pristine) (observations [cached_dataclass_as_is name src (f :: rest)] hist).
 Proof.
   intros name src f rest k.
@@ -204,6 +204,17 @@ Proof.
   unfold observe in Hy. simpl in Hy. inversion Hy as [|z l3 _ H4]. subst. inversion H4 as [|w l4 Hw _]. subst.
   unfold mutate in Hw. simpl in Hw. rewrite String.eqb_refl in Hw. simpl in Hw.
   rewrite !N.eqb_refl in Hw. rewrite String.eqb_refl in Hw. simpl in Hw. discriminate.
+Qed.
+(* the name used in DESIGN.md: ScatteringParams.for_isotope as found in the pinned tree; the 2-step history
+   lookup; mutate absorption_cross_section; lookup *)
+Theorem scattering_params_shared_refuted :
+  exists hist, hist = [Call 0 0%N; Mutate 0 (Some "absorption_cross_section") 99%N; Call 0 0%N] /\
+    ~ Forall pristine (observations [cached_dataclass_as_is "ScatteringParams.for_isotope" 2 ["absorption_cross_section"]] hist).
+Proof.
+  eexists. split; [reflexivity|]. intro H. unfold observations in H. simpl in H.
+  inversion H as [|x l _ H2]. subst. inversion H2 as [|y l2 Hy _]. subst. clear H H2.
+  unfold observe in Hy. simpl in Hy. inversion Hy as [|z l3 _ H4]. subst. inversion H4 as [|w l4 Hw _]. subst.
+  vm_compute in Hw. discriminate.
 Qed.
 Example copying_is_private : op_private (cached_dataclass_copying "Atom.for_isotope" 1 ["atomic_weight"; "atomic_mass"]) = true.
 Proof. reflexivity. Qed.
